@@ -31,7 +31,7 @@ REQUIRED = ['C08.pool_map_schedule_indep', 'C08.ensemble_mean', 'C08.flip_member
             'C08.ceemd_noise_distinct_all_stages_of_injective', 'C08.ceemd_noise_distinct_all_stages_iff',
             'C08.ceemd_cols_are_fanout_means', 'C08.ceemd_noise_distinct_every_fanout',
             'C08.ceemd_live_noise_distinct_all_stages', 'C08.ceemd_noise_distinctness_lost_witness',
-            'C08.ceemd_first_stage_double_scaled', 'C08.ensemble_members_distinct_inputs',
+            'C08.ceemd_first_stage_scaled_once', 'C08.pinned_first_fanout_double_scaled', 'C08.ensemble_members_distinct_inputs',
             # cross-model consistency with the Sift model (C01/C03/C04)
             'C08.ensemble_mean_agrees_with_sift_model', 'C08.ensembleSift_agrees_with_sift_model',
             'C08.ensemble_cols_le_cap_classic_sift', 'C08.ensemble_zero_noise_eq_classic_sift',
@@ -52,16 +52,18 @@ TRUSTED = [
     'complete_ensemble_sift: pure-noise sifts are told from member sifts by content (an all-zero input, or an input P whose '
     'P - firstIMF(P) is itself sifted later or is a column of the returned noise); member sifts are grouped into stages by time '
     '(stage k+1 inputs depend on the results of all stage k sifts, so the order of stages is causal)',
-    'MODELLED AS IT IS, not demanded or excluded by C08 (two questionable behaviours of complete_ensemble_sift, both verified on the code '
-    'by tracing the noise; stated about the model by C08.ceemd_first_stage_double_scaled and compared on every run by the CEEMD op): '
-    '(1) the noise matrix is drawn with np.random.random_sample((n, nensembles)) - uniform on [0, 1), mean 1/2, variance 1/12 - whereas '
-    'ensemble_sift draws np.random.randn (zero-mean, unit variance): the model takes the matrix M as an arbitrary input and the harness '
-    'feeds it the traced one, so no theorem depends on the distribution, but in single mode every member noise of a stage has a positive '
-    'offset that the mean over the members does not remove (flip mode cancels it); '
-    '(2) the first fan-out hands _sift_with_noise the ALREADY scaled matrix noise = U * noise_scaling TOGETHER WITH noise_scaling, which '
-    'multiplies once more: stage-0 members sift X +/- noise_scaling^2 * U_i, while the noise-only sifts and every later stage use '
-    'noise_scaling * U_i and its first-IMF residuals, added unscaled (noise_scaling=None). With noise_scaling = X.std() * ensemble_noise '
-    'the first-stage noise amplitude is therefore not proportional to ensemble_noise * X.std() but to its square',
+    'MODELLED AS IT IS, not demanded or excluded by C08 (a questionable behaviour of complete_ensemble_sift, verified on the code '
+    'by tracing the noise): the noise matrix is drawn with np.random.random_sample((n, nensembles)) - uniform on [0, 1), mean 1/2, '
+    'variance 1/12 - whereas ensemble_sift draws np.random.randn (zero-mean, unit variance): the model takes the matrix M as an arbitrary '
+    'input and the harness feeds it the traced one, so no theorem depends on the distribution, but in single mode every member noise of a '
+    'stage has a positive offset that the mean over the members does not remove (flip mode cancels it)',
+    'REPAIRED (repo commit "fix: complete_ensemble_sift adds the (already scaled) noise matrix as it is in the first stage"): the pinned '
+    'first fan-out handed _sift_with_noise the ALREADY scaled matrix noise = U * noise_scaling TOGETHER WITH noise_scaling, which multiplied '
+    'once more: stage-0 members sifted X +/- noise_scaling^2 * U_i (Lean: C08.pinned_first_fanout_double_scaled). With noise_scaling = '
+    'X.std() * ensemble_noise the first-stage noise was proportional to the SQUARE of the signal amplitude: on the corpus signal x 1e-13 with '
+    'ensemble_noise = 0.005 it fell below the rounding of the signal, two of four first-stage members sifted the bare input and only three '
+    'distinct inputs were sifted (the property\'s own words fail; witness in the corpus of stream complete); x 1e6 gave noise ~1e3 times the '
+    'signal. Model and code now add the matrix as it is at every stage (C08.ceemd_first_stage_scaled_once)',
 ]
 ASSUMPTIONS = [
     'PARTIAL: the real OS scheduling of pool workers is sampled (nprocesses 1..8, randomised worker delays), not enumerated; '
@@ -100,6 +102,7 @@ RULE = ('grid: nensembles 1..8 x nprocesses 1..8 x noise_mode {single, flip} x e
 
 MODEL_DRAW = 'parent'        # where the modelled code draws the member noise ('fork' = pinned code, inside the worker)
 LEVELS = [0.0, 0.05, 2.0]
+UNIT_SCALES = [1e-6, 1e-13, 1e6]      # the same signals in other physical units (volts, tesla, ...)
 IMPL_TIMEOUT = 20          # seconds per traced call (normal calls take < 0.3 s)
 RNG_FUNCS = ('randn', 'standard_normal', 'normal', 'random_sample', 'random', 'rand', 'ranf', 'sample', 'uniform')
 SKIP_UNTRACEABLE = 'skip:public-sift-not-traced'
@@ -169,6 +172,13 @@ def _traced_call(case, fn):
     return res, err, msg, out
 
 
+def _signal(spec):
+    """_msk.make_signal, plus 'explicit' signals given by their samples (witnesses found outside the families)"""
+    if spec.get('fam') == 'explicit':
+        return np.ascontiguousarray(np.array(spec['v'], dtype=float) * float(spec.get('scale', 1.0)))
+    return _msk.make_signal(spec)
+
+
 def _opts(case):
     return dict(_msk.IMF_OPTS[case.get('opts', 0)])
 
@@ -224,6 +234,12 @@ def _rng_units(out, n):
                 seen.add(k)
                 units.append({'u': np.ascontiguousarray(u), 'w': e['w'], 'fn': (e.get('extra') or {}).get('fn')})
     return units
+
+
+def _amp(x, extra=0.0):
+    """amplitude the tolerances are relative to: the signal's own (the quantifier ranges over signals of any physical
+    unit - 1e-13 as well as 1e6 - so there is no absolute floor), plus the noise amplitude where noise is added"""
+    return max(_msk.max_abs(x) + float(extra), 1e-300)
 
 
 def _mag(*arrs):
@@ -347,7 +363,9 @@ class _Base(Stream):
         return self._cache[k]
 
     def tags(self, case, out):
-        t = ['N=%d' % case['N'], 'nproc=%d' % case['nproc'], 'mode=' + case['mode'], 'level=%s' % case['level'],
+        sc = case['sig'].get('scale', 1.0)
+        t = ['signal-units=' + ('x%g' % sc if sc in UNIT_SCALES else 'order-one(x0.01..x250)'),
+             'N=%d' % case['N'], 'nproc=%d' % case['nproc'], 'mode=' + case['mode'], 'level=%s' % case['level'],
              'cap=%s' % case.get('cap'), 'delay' if case.get('delay') else 'no-delay']
         if isinstance(out, ImplError):
             t.append('harness-error=' + out['error'])
@@ -365,7 +383,10 @@ class _Base(Stream):
 
     def shrink(self, case):
         if case['sig']['n'] > 48:
-            yield dict(case, sig=dict(case['sig'], n=48))
+            if case['sig'].get('fam') == 'explicit':
+                yield dict(case, sig=dict(case['sig'], n=48, v=case['sig']['v'][:48]))
+            else:
+                yield dict(case, sig=dict(case['sig'], n=48))
         if case.get('delay'):
             yield dict(case, delay=False)
         if case['N'] > 2:
@@ -403,6 +424,14 @@ class Ensemble(_Base):
              'level': 0.05, 'cap': 6, 'seed': 4, 'opts': 0, 'delay': False},
             # one pool chunk holds several jobs (nensembles > 4 * nprocesses): jobs of a chunk share one unpickled X
             dict(base, N=6, nproc=1, mode='flip'), dict(base, N=7, nproc=1, mode='single', level=2.0),
+            # the same signal in other physical units: a non-zero noise LEVEL is relative to the signal's own spread, so
+            # the members are noisy and pairwise different whatever the amplitude (round-4 change: an absolute
+            # `isclose(noise_scaling, 0)` shortcut gave 1e-13 / 1e-6 scaled signals no noise at all)
+            dict(base, sig=dict(s, scale=1e-13), N=3, nproc=2), dict(base, sig=dict(s, scale=1e-13), N=4, nproc=3, mode='flip', level=2.0),
+            dict(base, sig=dict(s, scale=1e-13), N=1, nproc=1, level=0.05),
+            dict(base, sig=dict(s, scale=1e-6), N=3, nproc=2, level=0.005), dict(base, sig=dict(s, scale=1e-6), N=2, nproc=1, level=0.005, mode='flip'),
+            dict(base, sig=dict(s, scale=1e6), N=3, nproc=2, level=0.05), dict(base, sig=dict(s, scale=1e6), N=2, nproc=2, level=0.0),
+            dict(base, sig=dict(s, scale=1e-13), N=2, nproc=2, level=0.0),
         ]
 
     def generate(self, rng, tier):
@@ -411,6 +440,10 @@ class Ensemble(_Base):
         def mk(N, nproc, mode, level):
             sig = _msk.rand_signal_spec(rng, sizes)
             sig['fam'] = rng.choice(['tones', 'tones', 'chirp', 'noise', 'walk'])
+            if rng.random() < 0.2:
+                sig['scale'] = rng.choice(UNIT_SCALES)
+                if level > 0 and rng.random() < 0.5:
+                    level = 0.005      # a small level on a small signal: noise amplitude far below any absolute threshold
             return {'sig': sig, 'N': N, 'nproc': nproc, 'mode': mode, 'level': level,
                     'cap': rng.choice([None, 2, 3, 4, 3]), 'seed': rng.randrange(1 << 31),
                     'opts': rng.choice([0, 0, 2, 3, 4]), 'delay': rng.random() < 0.6}
@@ -426,7 +459,7 @@ class Ensemble(_Base):
                          rng.choice([0.0, 0.05, 0.05, 2.0, 2.0]))
 
     def impl(self, case):
-        x = _msk.make_signal(case['sig'])
+        x = _signal(case['sig'])
         res, err, msg, events = _traced_call(case, lambda emd: emd.sift.ensemble_sift(
             x, nensembles=case['N'], ensemble_noise=case['level'], noise_mode=case['mode'],
             nprocesses=case['nproc'], max_imfs=case['cap'], imf_opts=_opts(case) or None))
@@ -439,7 +472,7 @@ class Ensemble(_Base):
     # -- analysis of one traced run (cached)
     def _analyse(self, case, out):
         def run():
-            x = _msk.make_signal(case['sig'])
+            x = _signal(case['sig'])
             n, N = len(x), case['N']
             scale = float(x.std() * case['level'])
             opts = _opts(case)
@@ -530,7 +563,7 @@ class Ensemble(_Base):
         an = self._analyse(case, out)
         x, scale, n, N = an['x'], an['scale'], len(an['x']), case['N']
         flip = case['mode'] == 'flip'
-        tol = _msk.TOL * max(1.0, _msk.max_abs(x) + 6 * scale)
+        tol = _msk.TOL * _amp(x, 6 * scale)
         if scale == 0:
             # zero noise: the model's members all sift x itself; the oracle table holds the classic sift of x
             # (the harness's own call of the public sift) and whatever was traced
@@ -603,7 +636,7 @@ class Ensemble(_Base):
             return 'ENS: %s' % ens.raw[:160]
         if int(ens.args['k']) != len(out['cols']):
             return 'columns: model %s impl %d (widths of the sifted signals %s)' % (ens.args['k'], len(out['cols']), an['widths'])
-        tol = _msk.TOL * max(1.0, _msk.max_abs(an['x']) + 6 * an['scale'])
+        tol = _msk.TOL * _amp(an['x'], 6 * an['scale'])
         for j, c in enumerate(out['cols']):
             if not _msk.frac_close(ens.vecs[j], c, tol):
                 return 'ensemble column %d differs from the model mean' % j
@@ -639,6 +672,11 @@ class Ensemble(_Base):
                                       '(nprocesses=%d, mode=%s); sharing pattern %s by worker %s'
                                       % (len(set(cl)), len(ms), len(set(m['w'] for m in ms)), case['nproc'], case['mode'],
                                          _partition(cl), [m['w'] for m in ms])))
+                elif an['scale'] > 0 and any(_msk.max_abs(m['nu']) == 0 for m in an['members']):
+                    k0 = sum(1 for m in an['members'] if _msk.max_abs(m['nu']) == 0)
+                    fs.append(Failure('member-sifted-without-noise', '%d of the %d members sifted the input itself although the noise '
+                                      'level is %s (noise amplitude %.3g for a signal of amplitude %.3g)'
+                                      % (k0, len(an['members']), case['level'], an['scale'], _msk.max_abs(x))))
                 elif an.get('copies'):
                     a, b, r = an['copies'][0]
                     fs.append(Failure('members-share-noise:rescaled-or-shifted-copy',
@@ -668,7 +706,7 @@ class Ensemble(_Base):
         if an['decs'] is not None and not self._pinned_d3(case, out, an):
             K = max(an['widths'])
             want = _zero_padded_mean(n, an['decs'], K)
-            tol = _msk.TOL * max(1.0, _msk.max_abs(x) + 6 * an['scale'])
+            tol = _msk.TOL * _amp(x, 6 * an['scale'])
             if len(cols) != len(want):
                 fs.append(Failure('ensemble-wrong-column-count', '%d columns, the sifted signals have %s, cap %s'
                                   % (len(cols), an['widths'], case['cap'])))
@@ -682,9 +720,25 @@ class Ensemble(_Base):
                         fs.append(Failure(kind, 'column %d deviates %.3g from the mean over the %d decompositions recomputed '
                                           'from the sifted signals' % (j, dev, len(an['decs']))))
                         break
+        if case['level'] > 0 and an['scale'] > 0 and cols:
+            # a non-zero noise level (relative to the signal's own spread) perturbs every member: whatever was traced, a
+            # result that IS the classic sift of the input to within rounding was made without any noise. Literal in
+            # single mode (mean_i sift(x + nu_i) = sift(x) needs mean_i nu_i = 0). In flip mode small noise cancels
+            # exactly when it moves no extremum and no stop decision (the sift is then linear in its input: witnessed on
+            # the unchanged code, scale 1e-6, level 0.005), so there the verdict needs the trace - only the bare input
+            # was sifted - and stays mechanism-level.
+            ref = _classic(x, case['cap'], _opts(case))
+            if len(ref) == len(cols) and all(float(np.max(np.abs(a - b))) <= 1e-12 * _amp(x) for a, b in zip(ref, cols)):
+                allsig = _sifted(out, n)[0]
+                bare = sum(1 for e in allsig if float(np.max(np.abs(e['v'] - x))) == 0)
+                if not flip or (allsig and bare == len(allsig)):
+                    fs.append(Failure('nonzero-noise-level-but-result-is-the-classic-sift',
+                                      'ensemble_noise=%s on a signal of amplitude %.3g (noise amplitude %.3g): the result equals '
+                                      'sift(x, max_imfs=%s) to within 1e-12 relative; %d sifted signals traced, %d of them the input itself'
+                                      % (case['level'], _msk.max_abs(x), an['scale'], case['cap'], len(allsig), bare), literal=not flip))
         if case['level'] == 0:
             ref = _classic(x, case['cap'], _opts(case))
-            ztol = 1e-12 * max(1.0, _msk.max_abs(x))
+            ztol = 1e-12 * _amp(x)
             same_prefix = all(np.max(np.abs(a - b)) <= ztol for a, b in zip(ref, cols))
             if len(cols) > len(ref) and same_prefix and all(np.max(np.abs(c)) == 0 for c in cols[len(ref):]):
                 fs.append(Failure('zero-noise-trailing-zero-columns',
@@ -734,21 +788,36 @@ class Complete(_Base):
     def corpus(self):
         s = {'fam': 'tones', 'n': 64, 'seed': 22, 'scale': 1.0}
         base = {'sig': s, 'N': 4, 'nproc': 4, 'mode': 'single', 'level': 0.2, 'cap': 2, 'seed': 99, 'delay': False}
+        t = np.linspace(0, 2, 128)
         return [base, dict(base, nproc=1), dict(base, mode='flip', nproc=3, N=5), dict(base, level=0.0, N=2, nproc=2),
                 dict(base, N=1, nproc=2, level=2.0), dict(base, N=8, nproc=8, cap=None, level=0.05),
-                dict(base, N=6, nproc=1, mode='flip', cap=3)]
+                dict(base, N=6, nproc=1, mode='flip', cap=3),
+                # the same signal in other physical units. D-C08-ceemd (repaired): the first fan-out scaled the noise twice,
+                # so on a 1e-13 signal with a small level the noise fell below the rounding of the signal - two of four
+                # stage-0 members sifted the bare input, three distinct inputs for four members (first case = the witness)
+                {'sig': {'fam': 'explicit', 'n': 128, 'seed': 0, 'scale': 1e-13,
+                         'v': _msk.vlist(np.sin(2 * np.pi * 5 * t) + .6 * np.cos(2 * np.pi * 23 * t) + t)},
+                 'N': 4, 'nproc': 1, 'mode': 'single', 'level': 0.005, 'cap': 2, 'seed': 1, 'delay': False},
+                dict(base, sig=dict(s, scale=1e-13), level=0.005), dict(base, sig=dict(s, scale=1e-13), level=0.05, mode='flip', N=3, nproc=2),
+                dict(base, sig=dict(s, scale=1e-6), level=0.005, N=3, nproc=2), dict(base, sig=dict(s, scale=1e6), level=0.05, N=3, nproc=3),
+                dict(base, sig=dict(s, scale=1e6), level=2.0, N=2, nproc=2, mode='flip'), dict(base, sig=dict(s, scale=1e-13), level=0.0, N=2)]
 
     def generate(self, rng, tier):
         sizes = [48, 64, 96]
         for _ in range(160 if tier == 'thorough' else 22):
             sig = _msk.rand_signal_spec(rng, sizes)
             sig['fam'] = rng.choice(['tones', 'tones', 'chirp', 'noise', 'walk'])
+            level = rng.choice([0.0, 0.05, 0.05, 2.0, 2.0])
+            if rng.random() < 0.2:
+                sig['scale'] = rng.choice(UNIT_SCALES)
+                if level > 0 and rng.random() < 0.5:
+                    level = 0.005
             yield {'sig': sig, 'N': rng.randint(1, 8), 'nproc': rng.randint(1, 8), 'mode': rng.choice(['single', 'flip']),
-                   'level': rng.choice([0.0, 0.05, 0.05, 2.0, 2.0]), 'cap': rng.choice([None, 1, 2, 3]),
+                   'level': level, 'cap': rng.choice([None, 1, 2, 3]),
                    'seed': rng.randrange(1 << 31), 'delay': rng.random() < 0.6}
 
     def _impl_once(self, case):
-        x = _msk.make_signal(case['sig'])
+        x = _signal(case['sig'])
         res, err, msg, events = _traced_call(case, lambda emd: emd.sift.complete_ensemble_sift(
             x, nensembles=case['N'], ensemble_noise=case['level'], noise_mode=case['mode'],
             nprocesses=case['nproc'], max_imfs=case['cap']))
@@ -780,7 +849,7 @@ class Complete(_Base):
     def _analyse_run(self, case, out):
         def run():
             import emd
-            x = _msk.make_signal(case['sig'])
+            x = _signal(case['sig'])
             n, N = len(x), case['N']
             scale = float(x.std() * case['level'])
             flip = case['mode'] == 'flip'
@@ -892,7 +961,7 @@ class Complete(_Base):
                         if any(float(np.max(np.abs(e - q))) <= tk or float(np.max(np.abs(e + q))) <= tk for e in stages[k + 1]['e']):
                             own = min(float(np.max(np.abs(q - nxt[i]))) for i in rnd)
                             an['mixed'].append({'stage': k + 1, 'col': c, 'a': hit[0], 'b': hit[1], 'dev': own})
-            # stage-0 noise columns as the model sees them: member noise = +/- scale * (a noise column P that is sifted itself)
+            # stage-0 noise columns as the model sees them: member noise = +/- (a noise column P that is sifted itself)
             st0 = stages[0]
             if st0['reps'] is not None:
                 P = [S[i] for i in range(len(S)) if pure[i]]
@@ -903,8 +972,8 @@ class Complete(_Base):
                         hit = np.zeros(n)
                     else:
                         for p_ in P:
-                            if float(np.max(np.abs(st0['e'][r] - scale * p_))) <= tol or \
-                                    (flip and float(np.max(np.abs(st0['e'][r] + scale * p_))) <= tol):
+                            if float(np.max(np.abs(st0['e'][r] - p_))) <= tol or \
+                                    (flip and float(np.max(np.abs(st0['e'][r] + p_))) <= tol):
                                 hit = p_
                                 break
                     noise0.append(hit)
@@ -937,7 +1006,7 @@ class Complete(_Base):
         for i in tf + tn:
             vecs += [_msk.vlist(S[i]), _msk.vlist(an['first'][i])]
         return [proto.op('CEEMD', {'n': N, 'flip': 1 if case['mode'] == 'flip' else 0, 'scale': scale,
-                                   'tol': _msk.TOL * max(1.0, _msk.max_abs(x) + scale), 'stages': len(an['stages']) - 1,
+                                   'tol': _msk.TOL * _amp(x, scale), 'stages': len(an['stages']) - 1,
                                    'nf': len(tf), 'nn': len(tn), 'rot': case['nproc']}, vecs)]
 
     def compare(self, case, out, results):
@@ -962,7 +1031,7 @@ class Complete(_Base):
         K = len(out['cols'])
         if int(r.args['k']) != K:
             return 'columns: model %s impl %d' % (r.args['k'], K)
-        tol = _msk.TOL * max(1.0, _msk.max_abs(an['x']) + an['scale'])
+        tol = _msk.TOL * _amp(an['x'], an['scale'])
         for j, c in enumerate(out['cols']):
             if not _msk.frac_close(r.vecs[j], c, tol):
                 return 'column %d differs from the model mean over members' % j
@@ -997,7 +1066,7 @@ class Complete(_Base):
             # is C03's subject)
             ref = _classic(x, case['cap'], {})
             cols = [np.array(c) for c in out['cols']]
-            ztol = _msk.TOL * max(1.0, _msk.max_abs(x))
+            ztol = _msk.TOL * _amp(x)
             for j in range(min(len(ref), len(cols))):
                 dev = float(np.max(np.abs(ref[j] - cols[j])))
                 if dev > ztol:
@@ -1010,13 +1079,22 @@ class Complete(_Base):
             # stages told apart by the pool rounds only (the content rule did not close): nothing but the own-remainder
             # check, which is what that recognition exists for, is judged on such a run
             return fs + self._mixed_failure(case, out, an)
-        tol = _msk.TOL * max(1.0, _msk.max_abs(x) + an['scale'])
+        tol = _msk.TOL * _amp(x, an['scale'])
         for k, st in enumerate(an['stages']):
             if flip and st['unmatched']:
                 fs.append(Failure('flip-second-run-not-sign-flipped-noise',
                                   'stage %d: %d of the %d member signals have no partner residual - nu for their residual + nu'
                                   % (k, len(st['unmatched']), len(st['idx']))))
                 break
+        st0 = an['stages'][0]
+        if case['level'] > 0 and an['scale'] > 0 and any(st0['negligible']):
+            # the drawn matrix (stage 0) is the members' noise: at a non-zero level, relative to the signal's own spread,
+            # every member's is far above rounding whatever the amplitude of the signal (later stages: see below)
+            k0 = sum(1 for v in st0['negligible'] if v)
+            fs.append(Failure('member-sifted-without-noise', 'stage 0: %d of the %d member signals are the input itself to within '
+                              '1e-9 of its amplitude although the noise level is %s (noise amplitude %.3g, signal amplitude %.3g); '
+                              '%d distinct inputs' % (k0, len(st0['e']), case['level'], an['scale'], _msk.max_abs(x),
+                                                      len({np.asarray(v).tobytes() for v in st0['e']}))))
         if case['level'] > 0:
             for k, st in enumerate(an['stages']):
                 # a noise column whose modes are exhausted becomes exactly zero in later stages (that is the algorithm);
